@@ -781,9 +781,17 @@ static void su_spawn(void) {
   for (i = 0; i < 10; i++) io[i].flags = UV_IGNORE;
   io[0].flags = UV_CREATE_PIPE | UV_READABLE_PIPE; io[0].data.stream = (uv_stream_t*) &pin;
   io[1].flags = UV_CREATE_PIPE | UV_WRITABLE_PIPE; io[1].data.stream = (uv_stream_t*) &pout;
-  fi_on = 1; a = led(); ARM("spawn");
-  rc = uv_spawn(&L, &proc, &o);
-  DISARM(); z = led();
+  {
+    /* SIGCHLD is held back so that libuv's signal handler (which makes wrapped calls itself)
+       cannot run inside the armed region */
+    sigset_t blk, old;
+    sigemptyset(&blk); sigaddset(&blk, SIGCHLD);
+    pthread_sigmask(SIG_BLOCK, &blk, &old);
+    fi_on = 1; a = led(); ARM("spawn");
+    rc = uv_spawn(&L, &proc, &o);
+    DISARM(); z = led();
+    pthread_sigmask(SIG_SETMASK, &old, NULL);
+  }
   {
     char extra[64];
     snprintf(extra, sizeof extra, " active=%d in=%d out=%d", uv_is_active((uv_handle_t*) &proc) ? 1 : 0,
